@@ -75,8 +75,8 @@ class C11(Check):
         self.rec.unwrap_all()
 
     def budget(self, tier):
-        k = 1 if tier == 'quick' else 12
-        return {'single': 260 * k, 'stack2d': 50 * k, 'no_ivar': 40 * k, 'allbad': 20 * k, 'reproduce': 60 * k,
+        k = 1 if tier == 'quick' else 60
+        return {'single': 260 * k, 'stack2d': 90 * k, 'no_ivar': 40 * k, 'allbad': 20 * k, 'reproduce': 60 * k,
                 'scaling': 40 * k, 'deredshift': 40 * k, 'float32': 40 * k}
 
     # ------------------------------------------------------------------ gen
